@@ -2,7 +2,9 @@ package metric
 
 // C08 correspondence harness: twin ManualReaders (delta / cumulative) on one MeterProvider, all instrument kinds,
 // default and view-selected aggregations, callbacks replaying the history's observations. Public API only.
-//   twin <gen> <insts> <slots> | rec j a v | obs j a v | reg k | unreg k | cberr | col … => <record> …
+//   twin <gen> <insts> <slots> | rec j a v | obs j a v | reg k | unreg k | cberr | cancelat j | col … => <record> …
+// cancelat j: the contexts of the next cycle's two collections are cancelled WHILE instrument j is being aggregated
+// (a hook exemplar reservoir installed through the instrument's view — public API — cancels from its Collect).
 // cberr: every callback that runs in the next cycle returns an error AFTER making its observations (the SDK joins such
 // errors and returns them together with the collected data; header "<cycle>:<D|C>:e" = Collect returned an error).
 // gen tags ending in "+fresh" collect into a fresh ResourceMetrics each time; all others reuse ONE ResourceMetrics
@@ -24,6 +26,7 @@ import (
 	"sort"
 	"strconv"
 	"strings"
+	"sync"
 	"testing"
 	"time"
 
@@ -31,8 +34,33 @@ import (
 	"go.opentelemetry.io/otel"
 	"go.opentelemetry.io/otel/attribute"
 	"go.opentelemetry.io/otel/metric"
+	"go.opentelemetry.io/otel/sdk/metric/exemplar"
 	"go.opentelemetry.io/otel/sdk/metric/metricdata"
 )
+
+// c08Hook is an exemplar reservoir whose Collect runs a one-shot hook: the SDK calls it while it computes the
+// aggregation of the stream it belongs to, i.e. in the middle of pipeline.produce's aggregation loop.
+type c08Hook struct {
+	mu   sync.Mutex
+	hook func()
+}
+
+func (h *c08Hook) set(f func()) {
+	h.mu.Lock()
+	h.hook = f
+	h.mu.Unlock()
+}
+func (h *c08Hook) Offer(context.Context, time.Time, exemplar.Value, []attribute.KeyValue) {}
+func (h *c08Hook) Collect(dest *[]exemplar.Exemplar) {
+	*dest = (*dest)[:0]
+	h.mu.Lock()
+	f := h.hook
+	h.hook = nil
+	h.mu.Unlock()
+	if f != nil {
+		f()
+	}
+}
 
 type c08Inst struct {
 	float bool
@@ -181,6 +209,13 @@ func TestVerifC08Twin(t *testing.T) {
 		rd := &c08Reader{r: NewManualReader(WithTemporalitySelector(dsel)), tag: "D", prev: map[int]c08Prev{}}
 		rc := &c08Reader{r: NewManualReader(WithTemporalitySelector(csel)), tag: "C", prev: map[int]c08Prev{}}
 		var views []View
+		// hook reservoirs only in histories that cancel a collection (all other histories keep the default reservoirs
+		// and, for default aggregations, no view at all)
+		withHooks := false
+		for _, op := range ops {
+			withHooks = withHooks || op[0] == "cancelat"
+		}
+		hooks := make([]*c08Hook, len(insts))
 		for j, ic := range insts {
 			var agg Aggregation
 			switch ic.sel {
@@ -195,14 +230,23 @@ func TestVerifC08Twin(t *testing.T) {
 			case 'd':
 				agg = AggregationDrop{}
 			}
-			if agg != nil {
-				views = append(views, NewView(Instrument{Name: fmt.Sprintf("i%d", j)}, Stream{Aggregation: agg}))
+			st := Stream{Aggregation: agg}
+			if withHooks {
+				h := &c08Hook{}
+				hooks[j] = h
+				st.ExemplarReservoirProviderSelector = func(Aggregation) exemplar.ReservoirProvider {
+					return func(attribute.Set) exemplar.Reservoir { return h }
+				}
+			}
+			if agg != nil || withHooks {
+				views = append(views, NewView(Instrument{Name: fmt.Sprintf("i%d", j)}, st))
 			}
 		}
 		mp := NewMeterProvider(WithReader(rd.r), WithReader(rc.r), WithView(views...))
 		defer mp.Shutdown(ctx)
 		m := mp.Meter("c08")
 		var cur []c08Obs
+		cancelAt := -1
 		failNext := false
 		cbErr := func() error {
 			if failNext {
@@ -325,9 +369,20 @@ func TestVerifC08Twin(t *testing.T) {
 				rd.rm = metricdata.ResourceMetrics{}
 			}
 			rm := &rd.rm
+			cctx := ctx
+			var cancel func()
+			if withHooks && cancelAt >= 0 && cancelAt < len(hooks) {
+				// cancelled from inside the aggregation of instrument cancelAt (if this reader has a point for it)
+				cctx, cancel = context.WithCancel(ctx)
+				hooks[cancelAt].set(cancel)
+			}
 			lo := time.Now()
-			err := rd.r.Collect(ctx, rm)
+			err := rd.r.Collect(cctx, rm)
 			hi := time.Now()
+			if cancel != nil {
+				hooks[cancelAt].set(nil)
+				cancel()
+			}
 			rd.wins = append(rd.wins, c08Win{lo, hi})
 			class := func(t time.Time) string {
 				if creation.has(t) {
@@ -424,11 +479,14 @@ func TestVerifC08Twin(t *testing.T) {
 				}
 			case "cberr":
 				failNext = true
+			case "cancelat":
+				cancelAt = atoi(op[1])
 			case "col":
 				collect(rd)
 				collect(rc)
 				cur = nil
 				failNext = false
+				cancelAt = -1
 				cycle++
 			}
 		}
@@ -493,6 +551,7 @@ func TestVerifC08Twin(t *testing.T) {
 		var async []int
 		signmix := strings.HasPrefix(gen, "signmix")
 		cberrGen := strings.HasPrefix(gen, "cberr")
+		cancelGen := strings.HasPrefix(gen, "cancel") // collections cancelled in the middle of the aggregation loop
 		for j := 0; j < ni; j++ {
 			kind := "cuhgCUGCUG"[r.Intn(10)]
 			sels := compat[kind]
@@ -596,6 +655,10 @@ func TestVerifC08Twin(t *testing.T) {
 			if y := r.Intn(100); y < 3 || (cberrGen && y < 12) {
 				ops = append(ops, []string{"cberr"})
 				continue
+			} else if cancelGen && y >= 90 {
+				ops = append(ops, []string{"cancelat", strconv.Itoa(r.Intn(ni))}, []string{"col"})
+				newMode()
+				continue
 			}
 			switch {
 			case x < 30:
@@ -626,12 +689,16 @@ func TestVerifC08Twin(t *testing.T) {
 			gen = "signmix" // sign mix of the histogram inputs changes from cycle to cycle
 		case 2:
 			gen = "cberr" // failing callbacks
+		case 3, 4:
+			gen = "cancel" // contexts cancelled while an instrument is aggregated
 		}
 		if r.Intn(5) == 0 {
 			gen += "+fresh"
 		}
 		if strings.HasPrefix(gen, "signmix") {
 			genCase(gen, 1+r.Intn(3), 15+r.Intn(50))
+		} else if strings.HasPrefix(gen, "cancel") {
+			genCase(gen, 2+r.Intn(5), 10+r.Intn(71))
 		} else {
 			genCase(gen, 1+r.Intn(6), 10+r.Intn(71))
 		}
